@@ -265,8 +265,14 @@ func (v *c18Vals) run(seq []int) (key string, viol *c14Viol) {
 			switch {
 			case strings.HasPrefix(op.Special, "replace:"):
 				k, _ := strconv.Atoi(strings.TrimPrefix(op.Special, "replace:"))
-				nm, _ := mf.CreateStore("main", true)
-				nl, err := lf.CreateStore("main", true)
+				// the replacing store is created under the same identifier (what the repository does) or under one of
+				// its own: a replacement takes over content, not names
+				ident := "main"
+				if k%2 == 1 {
+					ident = fmt.Sprintf("staging-%d", k)
+				}
+				nm, _ := mf.CreateStore(ident, true)
+				nl, err := lf.CreateStore(ident, true)
 				if err != nil {
 					panic(err)
 				}
@@ -513,7 +519,7 @@ func RunC18(tier string, args []string) int {
 	}
 	chk := fw.NewCheck("C18", tier, "model_checking")
 	chk.Assumptions = []string{
-		"operation alphabet: start(2) insert(issuer 2 x serial 3 x ext 2) extmeta(2) signer locations(2) replace-with(3 pre-filled stores) close+reopen; all sequences up to depth 3 (quick) / 4 (thorough) below every first operation, deduplicated on the reference model state; after every operation ALL getters of MapStore, LevelDbStore and the model are compared",
+		"operation alphabet: start(2) insert(issuer 2 x serial 3 x ext 2) extmeta(2) signer locations(2) replace-with(3 pre-filled stores, created under the same or under another identifier) close+reopen; all sequences up to depth 3 (quick) / 4 (thorough) below every first operation, deduplicated on the reference model state; after every operation ALL getters of MapStore, LevelDbStore and the model are compared",
 		"reference model: plain Go map + structs; a store is 'empty' until a CRL was started in it",
 		"value-shape sweep: issuer(4) x serial(4 incl. zero, negative, 2^159) x extensions(3) x date form(2), meta(2) x locations(4) round trips on both backends",
 	}
